@@ -420,4 +420,214 @@ Proof.
     + apply (sim_outedge g F rep S e Be Hout).
 Qed.
 
+(* ---------- no compression cost when nothing is truncated ---------- *)
+Lemma sim_bound chi g F rep es : Sim g F rep -> NoDup es -> (forall e, In e es -> alive g e) ->
+  (forall x, (1 <= zget x (szd n))%Z) -> (size_of (szd n) (universe n) <= chi)%Z ->
+  (size_of (hsz g) es <= chi)%Z.
+Proof.
+  intros S ND Hae Hpos Hchi. rewrite (sim_prod g F rep es S Hae).
+  pose proof (sim_flat_nodup g F rep es S ND Hae) as NDf.
+  assert (Hincl : incl (flat_map rep es) (universe n)).
+  { intros x Hx. apply in_flat_map in Hx. destruct Hx as (a & Ha & Hxa).
+    destruct (alive_tree g F rep a S (Hae a Ha)) as (k & t & HinF & Hk).
+    assert (Hx' : In x (L t)) by (apply (sim_idx g F rep S k t HinF x); exists a; tauto).
+    apply (sub_legs_keys n [] t x (forest_inrange F k t (sim_part g F rep S) HinF)) in Hx'.
+    apply (cnt_pos_in_universe n [] (leaves t)). lia. }
+  pose proof (size_of_incl_le (szd n) _ (universe n) NDf (NoDup_nodup _ _) Hincl Hpos). unfold universe in *. lia.
+Qed.
+
+Lemma ncc_zero chi g F rep X : Sim g F rep ->
+  (forall x, (1 <= zget x (szd n))%Z) -> (size_of (szd n) (universe n) <= chi)%Z ->
+  neighborhood_compress_cost g chi X = (0%Z, false).
+Proof.
+  intros S Hpos Hchi. unfold neighborhood_compress_cost.
+  set (region := unique (flat_map (get_node g) X)).
+  destruct (incidences_spec g region (hu_unique_nodup _)) as (ND & Hin & _). cbn zeta in *.
+  set (gs := incidences g region) in *.
+  assert (Hgs : forall kv, In kv gs -> (edges_size g (snd kv) <= chi)%Z).
+  { intros kv Hkv. unfold edges_size. rewrite gflat_concat in ND.
+    apply (sim_bound chi g F rep (snd kv) S).
+    - apply (nodup_concat_member (map snd gs) (snd kv) ND). apply in_map, Hkv.
+    - intros e He. assert (Hg : In e (gflat gs)) by (unfold gflat; apply in_flat_map; exists kv; tauto).
+      apply Hin in Hg. destruct Hg as [Hg _]. unfold region in Hg. rewrite hu_unique_in in Hg.
+      apply in_flat_map in Hg. destruct Hg as (k & _ & Hk). exists k. exact Hk.
+    - exact Hpos.
+    - exact Hchi. }
+  set (inc := filter _ gs).
+  assert (Hinc : forall kv, In kv inc -> (edges_size g (snd kv) <= chi)%Z).
+  { intros kv Hkv. unfold inc in Hkv. apply filter_In in Hkv. apply Hgs, Hkv. }
+  clearbody inc. clear Hgs. induction inc as [|kv inc IH]; cbn [fold_left]; [reflexivity|].
+  assert (E : (chi <? edges_size g (snd kv))%Z = false).
+  { apply Z.ltb_ge. apply Hinc. left; reflexivity. }
+  cbn beta. rewrite E. apply IH. intros kv' Hkv'. apply Hinc. right; exact Hkv'.
+Qed.
+
+(* ---------- the initial graph ---------- *)
+Lemma size_of_single sz e : size_of sz [e] = zget e sz.
+Proof. rewrite size_of_cons. unfold size_of. cbn [map]. rewrite zprod_nil. lia. Qed.
+
+Lemma rep_to_sim g F : nodangling n -> Rep n g F -> Sim g F (fun e => [e]).
+Proof.
+  intros Hd R. constructor.
+  - apply (rep_wf n g F R).
+  - apply (rep_out n g F R).
+  - apply (rep_keys n g F R).
+  - apply (rep_nodup n g F R).
+  - apply (rep_part n g F R).
+  - intros k t HinF x.
+    rewrite <- (idx_eq_legs n norep t x Hd (forest_inrange F k t (rep_part n g F R) HinF)).
+    rewrite <- (rep_idx n g F R k t HinF x). split.
+    + intros H. exists x. split; [exact H|left; reflexivity].
+    + intros (e & He & [<-|[]]). exact He.
+  - intros e1 e2 x _ _ [<-|[]] [<-|[]]. reflexivity.
+  - intros e _. repeat constructor. intros [].
+  - intros e _. rewrite (rep_sz n g F R), size_of_single. reflexivity.
+  - intros e x _ [<-|[]] _. reflexivity.
+  - intros e _ _. reflexivity.
+Qed.
+
+(* ---------- one step of compressed_contract_stats ---------- *)
+Lemma ccs_step_flops chi late s p l r :
+  let g0 := cs_g s in let m := cs_map s in
+  let li := tm_get l m in let ri := tm_get r m in
+  let plr := (p, (l, r)) in
+  let gp := pre_g chi late g0 m plr in
+  let gc := fst (con_g chi late g0 m plr) in
+  let pi := snd (con_g chi late g0 m plr) in
+  t_flops (cs_tr (ccs_step chi late s plr)) =
+  (t_flops (cs_tr s) + (if late then fst (neighborhood_compress_cost g0 chi [li; ri]) else 0)
+   + contract_pair_cost gp li ri + (if late then 0 else fst (neighborhood_compress_cost gc chi [pi])))%Z.
+Proof.
+  cbn zeta. unfold ccs_step, con_g, pre_g. destruct late.
+  - destruct (hg_contract _ _ _) as [g' pi] eqn:E.
+    unfold tr_pre_compress. destruct (neighborhood_compress_cost _ _ _) as [c b].
+    unfold tr_post_step, tr_post_contract, tr_pre_contract, tr_post_compress, tr_pre_step.
+    cbn [cs_tr cs_g cs_map t_total t_total_post t_peak t_dsize t_contracted t_flops t_max t_write t_dflops t_sens fst snd]. lia.
+  - destruct (hg_contract _ _ _) as [g' pi] eqn:E. cbn [fst snd].
+    unfold tr_pre_compress. destruct (neighborhood_compress_cost _ _ _) as [c b].
+    unfold tr_post_step, tr_post_contract, tr_pre_contract, tr_post_compress, tr_pre_step.
+    cbn [cs_tr cs_g cs_map t_total t_total_post t_peak t_dsize t_contracted t_flops t_max t_write t_dflops t_sens fst snd]. lia.
+Qed.
+
+Theorem sim_step chi late s F rep p l r ti tj :
+  (forall x, (1 <= zget x (szd n))%Z) -> (size_of (szd n) (universe n) <= chi)%Z ->
+  let plr := (p, (l, r)) in
+  let li := tm_get l (cs_map s) in let ri := tm_get r (cs_map s) in
+  Sim (cs_g s) F rep -> li <> ri -> In (li, ti) F -> In (ri, tj) F ->
+  let s' := ccs_step chi late s plr in
+  let pi := snd (con_g chi late (cs_g s) (cs_map s) plr) in
+  (exists rep', Sim (cs_g s') ((pi, Node ti tj) :: del_tree ri (del_tree li F)) rep') /\
+  t_flops (cs_tr s') = (t_flops (cs_tr s) + node_flops n [] (Node ti tj))%Z /\
+  csize chi late (cs_g s) (cs_map s) plr = node_size n [] false (Node ti tj).
+Proof.
+  intros Hpos Hchi. cbn zeta. intros S Hne Hi Hj.
+  pose proof (ccs_step_flops chi late s p l r) as FL. cbn zeta in FL.
+  pose proof (ccs_step_struct chi late s (p, (l, r))) as ES.
+  assert (Eg : cs_g (ccs_step chi late s (p, (l, r))) = fst (step_g chi late (cs_g s) (cs_map s) (p, (l, r)))) by (rewrite <- ES; reflexivity).
+  rewrite Eg, FL. clear FL ES Eg.
+  set (g0 := cs_g s) in *. set (m := cs_map s) in *. set (li := tm_get l m) in *. set (ri := tm_get r m) in *.
+  unfold csize, step_g, con_g, pre_g. fold li ri.
+  destruct late.
+  - assert (A1 : forall e, In e (get_node g0 li) -> alive g0 e) by (intros e He; exists li; exact He).
+    pose proof (compress_sim chi (get_node g0 li) g0 F rep S A1 Hpos Hchi) as S1.
+    set (g1 := hg_compress chi (get_node g0 li) g0) in *.
+    set (rep1 := rep_after _ rep) in S1.
+    assert (A2 : forall e, In e (get_node g1 ri) -> alive g1 e) by (intros e He; exists ri; exact He).
+    pose proof (compress_sim chi (get_node g1 ri) g1 F rep1 S1 A2 Hpos Hchi) as S2.
+    set (g2 := hg_compress chi (get_node g1 ri) g1) in *.
+    set (rep2 := rep_after _ rep1) in S2.
+    destruct (contract_sim g2 F rep2 li ri ti tj S2 Hne Hi Hj) as (_ & S3 & C3 & Z3). cbn zeta in *.
+    rewrite (ncc_zero chi g0 F rep [li; ri] S Hpos Hchi). cbn [fst snd].
+    split; [exists rep2; exact S3|]. split; [rewrite C3; lia|exact Z3].
+  - destruct (contract_sim g0 F rep li ri ti tj S Hne Hi Hj) as (_ & S3 & C3 & Z3). cbn zeta in *.
+    set (gc := fst (hg_contract li ri g0)) in *. set (pi := snd (hg_contract li ri g0)) in *.
+    assert (A4 : forall e, In e (get_node gc pi) -> alive gc e) by (intros e He; exists pi; exact He).
+    pose proof (compress_sim chi (get_node gc pi) gc _ rep S3 A4 Hpos Hchi) as S4.
+    rewrite (ncc_zero chi gc _ rep [pi] S3 Hpos Hchi). cbn [fst snd].
+    split; [eexists; exact S4|]. split; [rewrite C3; lia|exact Z3].
+Qed.
+
+(* ---------- the whole run ---------- *)
+(* the trees the run creates, step by step, named by the identifiers the run itself uses *)
+Fixpoint run_trees (chi : Z) (late : bool) (s : cstate) (F : list (nat * tree))
+                   (order : list (list nat * (list nat * list nat))) : list tree :=
+  match order with
+  | [] => []
+  | plr :: order' =>
+      let li := tm_get (fst (snd plr)) (cs_map s) in
+      let ri := tm_get (snd (snd plr)) (cs_map s) in
+      match find_tree li F, find_tree ri F with
+      | Some ti, Some tj =>
+          Node ti tj :: run_trees chi late (ccs_step chi late s plr)
+                                  ((snd (con_g chi late (cs_g s) (cs_map s) plr), Node ti tj) :: del_tree ri (del_tree li F)) order'
+      | _, _ => []
+      end
+  end.
+
+Definition sum_flops_of (ts : list tree) : Z := zsum (map (node_flops n []) ts).
+Definition sum_sizes_of (ts : list tree) : Z := zsum (map (node_size n [] false) ts).
+Definition max_sizes_of (ts : list tree) (d : Z) : Z := zmax_list (map (node_size n [] false) ts) d.
+
+Theorem sim_run chi late : (forall x, (1 <= zget x (szd n))%Z) -> (size_of (szd n) (universe n) <= chi)%Z ->
+  forall order s F rep, Sim (cs_g s) F rep -> ids_ok_from chi late s order = true ->
+  let ts := run_trees chi late s F order in
+  let s' := fold_left (ccs_step chi late) order s in
+  length ts = length order /\
+  t_flops (cs_tr s') = (t_flops (cs_tr s) + sum_flops_of ts)%Z /\
+  t_write (cs_tr s') = (t_write (cs_tr s) + sum_sizes_of ts)%Z /\
+  t_max (cs_tr s') = max_sizes_of ts (t_max (cs_tr s)).
+Proof.
+  intros Hpos Hchi. induction order as [|[p [l r]] order IH]; intros s F rep S Hok; cbn zeta.
+  - cbn. unfold sum_flops_of, sum_sizes_of, max_sizes_of. cbn. repeat split; lia.
+  - cbn [ids_ok_from] in Hok. apply andb_true_iff in Hok. destruct Hok as [Hs Hok]. apply step_ok_b_sound in Hs.
+    destruct Hs as (Hne & Li & Lr). cbn [fold_left run_trees fst snd].
+    set (li := tm_get l (cs_map s)) in *. set (ri := tm_get r (cs_map s)) in *.
+    assert (Fi : exists ti, In (li, ti) F).
+    { apply (sim_keys _ F rep S) in Li. unfold fkeys in Li. apply in_map_iff in Li. destruct Li as ([k t] & E & H). cbn in E. subst. exists t; exact H. }
+    assert (Fj : exists tj, In (ri, tj) F).
+    { apply (sim_keys _ F rep S) in Lr. unfold fkeys in Lr. apply in_map_iff in Lr. destruct Lr as ([k t] & E & H). cbn in E. subst. exists t; exact H. }
+    destruct Fi as (ti & Hi). destruct Fj as (tj & Hj).
+    rewrite (in_find_tree li F ti (sim_nodup _ F rep S) Hi), (in_find_tree ri F tj (sim_nodup _ F rep S) Hj).
+    destruct (sim_step chi late s F rep p l r ti tj Hpos Hchi S Hne Hi Hj) as ((rep' & S') & FL & CZ). cbn zeta in *.
+    destruct (ccs_step_tracker chi late s (p, (l, r))) as [MX WR].
+    destruct (IH _ _ rep' S' Hok) as (A & B & C & D). cbn zeta in *. subst li ri.
+    split; [cbn [length]; rewrite A; reflexivity|].
+    unfold sum_flops_of, sum_sizes_of, max_sizes_of in *. cbn [map]. rewrite !zsum_cons.
+    split; [rewrite B, FL; lia|]. split; [rewrite C, WR, CZ; lia|].
+    rewrite D, MX, CZ. unfold zmax_list. cbn [fold_left]. reflexivity.
+Qed.
+
+Lemma map_snd_combine {A B} (f : A -> B) (l : list A) : forall s,
+  map (fun kv : nat * A => f (snd kv)) (combine (seq s (length l)) l) = map f l.
+Proof. induction l as [|x l IH]; intros s; cbn; [reflexivity|]. f_equal. apply IH. Qed.
+
+Definition leaf_forest : list (nat * tree) := map (fun i => (i, Leaf i)) (seq 0 NN).
+Definition input_sizes : list Z := map (size_of (szd n)) (inputs n).
+
+(* uncapped_* : with a cap at least the product of all dimensions, on a network without repeated
+   and without dangling indices, the tracker's flops / write / max are the exact figures of the
+   contractions the run performs (ts = the trees it builds, one per step) *)
+Theorem uncapped_exact chi late order : nodangling n ->
+  (forall x, (1 <= zget x (szd n))%Z) -> (size_of (szd n) (universe n) <= chi)%Z ->
+  ids_ok chi late n order = true ->
+  let ts := run_trees chi late (ccs_init n) leaf_forest order in
+  let t := cs_tr (ccs_run chi late n order) in
+  length ts = length order /\
+  t_flops t = sum_flops_of ts /\
+  t_write t = (zsum input_sizes + sum_sizes_of ts)%Z /\
+  t_max t = max_sizes_of ts (zmax_list input_sizes 0%Z).
+Proof.
+  intros Hd Hpos Hchi Hok. cbn zeta.
+  pose proof (rep_to_sim _ _ Hd (init_rep n norep)) as S0.
+  destruct (sim_run chi late Hpos Hchi order (ccs_init n) leaf_forest (fun e => [e]) S0 Hok) as (A & B & C & D).
+  cbn zeta in *. unfold ccs_run.
+  assert (Esz : map (fun kv : nat * list ix => edges_size (hg_init (inputs n) (output n) (szd n)) (snd kv))
+                    (hnodes (hg_init (inputs n) (output n) (szd n))) = input_sizes).
+  { unfold input_sizes. apply (map_snd_combine (size_of (szd n)) (inputs n) 0). }
+  split; [exact A|]. split; [rewrite B; unfold ccs_init; cbn [cs_tr tr_init t_flops]; lia|].
+  split.
+  - rewrite C. unfold ccs_init. cbn [cs_tr cs_g]. unfold tr_init. cbn [t_write]. rewrite Esz. reflexivity.
+  - rewrite D. unfold ccs_init. cbn [cs_tr cs_g]. unfold tr_init. cbn [t_max]. rewrite Esz. reflexivity.
+Qed.
+
 End Exact.
